@@ -138,19 +138,80 @@ def rule_laplacian(repo: Repo, rep: Report) -> int:
     inl = Inliner(sm)
     for r in rets:
         e = inl.inline(r.value)
-        s, d, _ = classify(
+        s, d, b = classify(
             e,
             [
                 "torch.sign(torch.rand(shape, device=device) - 0.5) * -torch.log(1 - torch.clamp(2 * torch.abs(torch.rand(shape, device=device) - 0.5), max=_EPSMAX))",
+                "torch.sign(torch.rand(shape, device=device) - 0.5) * -torch.log1p(-torch.clamp(2 * torch.abs(torch.rand(shape, device=device) - 0.5), max=_EPSMAX))",
                 "torch.sign(torch.rand(shape, device=device) - 0.5) * -torch.log(1 - 2 * torch.abs(torch.rand(shape, device=device) - 0.5))",
+                "torch.sign(torch.rand(shape, device=device) - 0.5) * -torch.log1p(-(2 * torch.abs(torch.rand(shape, device=device) - 0.5)))",
             ],
         )
         rep.add("LAPLACE-UNIT", sm, f"sampler: {unparse(e)[:200]}", s, d or "unit-scale Laplace (variance 2) by inverse CDF", node=r)
         n += 1
+        if s == OK and b and "_EPSMAX" in b:
+            # the guard against log(0) truncates the magnitude at t = -ln(1 - c): the unit Laplacian then delivers
+            # 2 - 2 e^-t (t + 1) instead of 2, a relative power loss of e^-t (t + 1)
+            import math
+
+            try:
+                c = float(ast.literal_eval(b["_EPSMAX"]))
+            except (ValueError, SyntaxError, TypeError):
+                c = None
+            if c is None or not (0.0 < c < 1.0):
+                rep.undecided("LAPLACE-UNIT", sm, f"truncation guard max={unparse(b['_EPSMAX'])}", "not a literal in (0, 1)", node=r)
+            else:
+                t = -math.log(1.0 - c)
+                loss = math.exp(-t) * (t + 1.0)
+                construct = f"truncation guard max={c:g}: magnitudes cut at {t:.3g} scale units"
+                if loss <= 1e-4:
+                    rep.ok("LAPLACE-UNIT", sm, construct, f"relative noise-power loss {loss:.2g} (negligible)", node=r)
+                elif loss >= 1e-3:
+                    rep.violation("LAPLACE-UNIT", sm, construct, f"the truncated unit Laplacian has variance 2(1 - {loss:.3g}): every Laplacian configuration delivers {100 * loss:.2g}% less noise power than configured (SNR {10 * math.log10(1 / (1 - loss)):.2g} dB too high)", node=r)
+                else:
+                    rep.undecided("LAPLACE-UNIT", sm, construct, f"relative noise-power loss {loss:.2g} is neither negligible nor clearly outside the tolerance", node=r)
+            n += 1
     urand = [c for c in ast.walk(sm.node) if isinstance(c, ast.Call) and (call_name(c) or "").endswith("rand")]
     rep.check(len(urand) == 1, "LAPLACE-UNIT", sm, f"uniform draws: {len(urand)}", "one uniform sample feeds both sign and magnitude", "sign and magnitude must come from the same uniform sample")
     n += 1
     return n
+
+
+def rule_override_verbatim(repo: Repo, rep: Report) -> int:
+    """A caller-supplied noise tensor is added as given.  The scaling-law engine treats casts as identities, so this rule
+    looks at every re-binding of a `noise` parameter: a device move is accepted; a cast to the signal's dtype (or any
+    dtype / .real / .float()) changes the noise - complex noise on a real signal loses its imaginary half (3 dB), float64
+    noise on a float32 signal is rounded."""
+    n = 0
+    mi = repo.module(AN)
+    for fi in list(mi.functions.values()) + [m for ci_ in mi.classes.values() for m in ci_.methods.values()]:
+        if "noise" not in fi.params:
+            continue
+        rebinds = [s_ for s_ in ast.walk(fi.node) if isinstance(s_, ast.Assign) and any(isinstance(t, ast.Name) and t.id == "noise" for t in s_.targets)]
+        gen = [s_ for s_ in rebinds if not any(isinstance(x, ast.Name) and x.id == "noise" for x in ast.walk(s_.value))]
+        for s_ in rebinds:
+            if s_ in gen:
+                continue  # noise generated by the channel itself (the non-override path)
+            n += 1
+            v = s_.value
+            casts = []
+            for c in ast.walk(v):
+                if isinstance(c, ast.Call) and isinstance(c.func, ast.Attribute):
+                    if c.func.attr in ("float", "double", "half", "type_as", "type", "int", "long", "bfloat16", "cfloat"):
+                        casts.append(c)
+                    elif c.func.attr == "to" and (any(k.arg == "dtype" for k in c.keywords) or any(isinstance(a, ast.Attribute) and (a.attr == "dtype" or attr_chain(a) in ("torch.float32", "torch.float64", "torch.float", "torch.float16", "torch.complex64")) for a in c.args) or any(isinstance(a, ast.Name) and a.id in fi.params and a.id != "noise" for a in c.args)):
+                        casts.append(c)
+                elif isinstance(c, ast.Attribute) and c.attr in ("real", "imag") and isinstance(c.value, ast.Name) and c.value.id == "noise":
+                    casts.append(c)
+            device_only = isinstance(v, ast.Call) and isinstance(v.func, ast.Attribute) and v.func.attr in ("to", "cuda", "cpu") and isinstance(v.func.value, ast.Name) and v.func.value.id == "noise" and not casts
+            if casts:
+                rep.violation("OVERRIDE", fi, f"supplied noise re-bound: {unparse(s_)}", f"`{unparse(casts[0])[:60]}` changes the dtype of the caller's noise: complex noise given for a real signal loses its imaginary part (half the configured power, SNR 3 dB too high) and wider-precision noise is rounded - the noise is no longer added verbatim", node=s_)
+            elif device_only:
+                rep.ok("OVERRIDE", fi, f"supplied noise moved: {unparse(s_)}", "a device move keeps every value", node=s_, nontrivial=False)
+            else:
+                rep.undecided("OVERRIDE", fi, f"supplied noise re-bound: {unparse(s_)}", "re-binding of the caller's noise not recognised", node=s_)
+    rep.ok("OVERRIDE", f"{AN}::channels", "re-bindings of a supplied `noise` parameter", f"{n} site(s) examined", nontrivial=False)
+    return n + 1
 
 
 def rule_nonlinear(repo: Repo, rep: Report) -> int:
@@ -275,6 +336,7 @@ def rule_memo(repo: Repo, rep: Report) -> int:
 def run(repo: Repo, rep: Report, tier: str) -> None:
     n = rule_apply_noise(repo, rep)
     n += rule_awgn(repo, rep)
+    n += rule_override_verbatim(repo, rep)
     n += rule_laplacian(repo, rep)
     n += rule_nonlinear(repo, rep)
     n += rule_fading_noise(repo, rep)
